@@ -280,6 +280,49 @@ def crowd_conflict(draw):
     return case
 
 
+@st.composite
+def camps_conflict(draw):
+    """Two camps: a row (or a two-row slab) of 3-6 blocks, every block chopped across the row; the blocks on one side of
+    a cut ask for n cells, those on the other side for m != n.  The only disagreeing pairs sit at the cut, and each of
+    the two blocks there also has edges of that direction in common with a block of its own camp."""
+    k = draw(st.integers(3, 6))
+    rows = draw(st.sampled_from([1, 1, 2])) if k <= 4 else 1
+    base = [k, rows, 1]
+    perm = draw(st.permutations([0, 1, 2]))
+    dims = [base[perm[a]] for a in range(3)]
+    row_axis = dims.index(k) if k != rows else perm.index(0)
+    d = draw(st.sampled_from([a for a in range(3) if a != row_axis]))
+    ncell = dims[0] * dims[1] * dims[2]
+    cells = list(draw(st.permutations(list(range(ncell)))))
+    cut = draw(st.integers(1, k - 1))
+    case = {
+        "dims": dims, "widths": [[10.0 ** draw(st.floats(-0.5, 0.5)) for _ in range(dims[a])] for a in range(3)],
+        "jitter": [], "cells": cells, "orient": [draw(st.integers(0, 23)) for _ in cells], "chops": [], "mode": "conflict",
+    }
+    n = draw(st.one_of(st.integers(1, 12), st.integers(60, 1200)))
+    m = n + draw(st.sampled_from([-3, -2, -1, 1, 2, 3, 7]))
+    if m < 1:
+        m = n + 1
+    fams, _ = lt.lattice_families(case)
+    chops = []
+    camp_fams = set()
+    for c in cells:
+        along = lt.cell_ijk(dims, c)[row_axis]
+        chops.append({"cell": c, "gdir": d, "args": {"count": n if along < cut else m}})
+    for fi, fam in enumerate(fams):
+        if any(g == d for _, g in fam):
+            camp_fams.add(fi)
+            continue
+        c, g = draw(st.sampled_from(fam))
+        chops.append({"cell": c, "gdir": g, "args": {"count": draw(st.integers(1, 6))}})
+    case["chops"] = list(draw(st.permutations(chops)))
+    first = [c for c in cells if lt.cell_ijk(dims, c)[row_axis] == cut - 1][0]
+    second = [c for c in cells if lt.cell_ijk(dims, c)[row_axis] == cut][0]
+    case["conflict"] = {"family": -1, "first": [first, d], "second": [second, d], "shape": "camps", "where": f"cut-{min(cut, k - cut)}",
+                        "vocal": ncell, "crowd": ncell}
+    return case
+
+
 def check_crowd(case, ctx: Ctx) -> None:
     check_conflict(case, ctx)
     cf = case["conflict"]
@@ -297,6 +340,9 @@ CELLS = [
     Cell("C01/conflict", lt.chopped_lattice("conflict").filter(lambda c: c is not None), check_conflict, 200, 10000,
          "two count chops with different totals in one family: InconsistentGradingsError and no file",
          fixed_cases=_UNEVEN + _SURROUNDED + _SQUEEZED),
+    Cell("C01/conflict/camps", camps_conflict(), check_crowd, 300, 10000,
+         "a row / slab of 3-6 blocks all chopped across the row, n cells on one side of a cut and m on the other: "
+         "refused, no file"),
     Cell("C01/conflict/crowd", crowd_conflict(), check_crowd, 300, 10000,
          "one dissenting block among up to eight neighbours that share an edge of the direction with it (plus, ring, "
          "random subsets; edges shared by 2-4 blocks), dissenter inserted last / first / anywhere: refused, no file"),
